@@ -252,9 +252,19 @@ def ob_parcpy_chunks(ctx, which):
             r = smt.prove(goal, assumptions=base, timeout=120, variants=NW); nq += 1
             if r.status == 'sat': return viol('%s/race' % which, '%s: chunks of two distinct iterations overlap: %s' % (which, r.model), replay=dict(which=which, model=r.model))
             if r.status != 'unsat': return inconc('%s: chunk disjointness: %s' % (which, r.info))
-    # every element e < size is covered by iteration floor(e / ct)
-    e_ = z3.BitVec('elem', 64)
-    for (p1, b1, c1, n1) in wr[:1]:
-        pass
-    return ok('%s with symbolic size < 2^60 and symbolic int thread count: %d path(s); every chunk lies in [0,size), is non-empty, and chunks of distinct iterations are disjoint (%d queries); coverage of all elements is established by the executed copies (move/* obligations)' % (which, len(reg.paths), nq),
+    # every element e < size is covered by the iteration W = floor(e / ct): W satisfies the loop bounds and its chunk contains e
+    e_ = z3.BitVec('elem', 64); ncov = 0
+    for (p1, b1, c1, n1) in wr:
+        ct8 = rename(tobv(b1, 64), i1, bvv(1, 64))          # byte offset of iteration 1 = 8·ct
+        W = z3.UDiv(e_ * bvv(8, 64), ct8)
+        bW = rename(tobv(b1, 64), i1, W); nW = rename(tobv(n1, 64), i1, W); pcW = [rename(c_, i1, W) for c_ in p1.pc]
+        base = list(pre) + list(reg.outer_pc) + [z3.ULT(e_, size), size != 0]
+        def goal(tr):
+            E8 = 8 * tr.val(e_); s1 = tr.val(bW) + c1
+            return z3.And([tr.bool(c_) for c_ in pcW] + [s1 <= E8, E8 < s1 + tr.val(nW)])
+        r = smt.prove(goal, assumptions=base, timeout=120, variants=NW); nq += 1
+        if r.status == 'sat': return viol('%s/cover' % which, '%s: element %s of a buffer of %s elements (num_threads %s) is not covered by any chunk' % (which, r.model.get('elem'), r.model.get('size'), r.model.get('num_threads')), replay=dict(which=which, model=r.model))
+        if r.status != 'unsat': return inconc('%s: coverage: %s' % (which, r.info))
+        ncov += 1
+    return ok('%s with symbolic size < 2^60 and symbolic int thread count: %d path(s); every chunk lies in [0,size), is non-empty, and chunks of distinct iterations are disjoint, and every element e < size lies in the chunk of iteration floor(e/ct) (%d queries, integer encoding with proved no-wrap side obligations)' % (which, len(reg.paths), nq),
               sample=dict(function=which, paths=len(reg.paths), queries=nq))
